@@ -171,6 +171,104 @@ class FlipIf(ast.NodeTransformer):
         return ast.If(test=test, body=n.orelse or [ast.Pass()], orelse=n.body)
 
 
+class HoistArg(ast.NodeTransformer):
+    """`x = f(g(a), b)` becomes `tmp_ = g(a); x = f(tmp_, b)`: the first call-valued positional argument of a call that
+    is the whole right-hand side / return value is evaluated into a temporary first (evaluation order is unchanged:
+    it is hoisted only when everything evaluated before it is a plain name, attribute or constant)."""
+
+    def __init__(self):
+        self.k = 0
+
+    def _simple(self, e):
+        return isinstance(e, (ast.Name, ast.Constant)) or (isinstance(e, ast.Attribute) and self._simple(e.value))
+
+    def _rewrite(self, body):
+        out = []
+        for st in body:
+            self.generic_visit_stmt(st)
+            if isinstance(st, (ast.Assign, ast.Return)) and isinstance(st.value, ast.Call) and self._simple(st.value.func) \
+                    and not (isinstance(st.value.func, ast.Attribute) and isinstance(st.value.func.value, ast.Call)):
+                call = st.value
+                for i, a in enumerate(call.args):
+                    if isinstance(a, ast.Starred):
+                        break
+                    if self._simple(a):
+                        continue
+                    if isinstance(a, ast.Call) and not any(isinstance(n, (ast.Lambda, ast.Yield, ast.Await)) for n in ast.walk(a)):
+                        self.k += 1
+                        name = f"tmp{self.k}_"
+                        out.append(ast.copy_location(ast.Assign(targets=[ast.Name(id=name, ctx=ast.Store())], value=a), st))
+                        call.args[i] = ast.Name(id=name, ctx=ast.Load())
+                    break
+            out.append(st)
+        return out
+
+    def generic_visit_stmt(self, st):
+        for field in ("body", "orelse", "finalbody"):
+            v = getattr(st, field, None)
+            if isinstance(v, list) and v and isinstance(v[0], ast.stmt) and not isinstance(st, ast.ClassDef):
+                setattr(st, field, self._rewrite(v))
+        if isinstance(st, ast.Try):
+            for h in st.handlers:
+                h.body = self._rewrite(h.body)
+        if isinstance(st, ast.ClassDef):
+            for b in st.body:
+                self.generic_visit_stmt(b)
+
+    def visit_Module(self, m):
+        for b in m.body:
+            self.generic_visit_stmt(b)
+        return m
+
+
+class InlineTemp(ast.NodeTransformer):
+    """`t = <expr>; x = f(t)` (adjacent statements, t a local used nowhere else in the function) becomes `x = f(<expr>)`
+    when t is the first thing the second statement evaluates apart from names / constants."""
+
+    def visit_FunctionDef(self, fn):
+        self.generic_visit(fn)
+        uses = {}
+        for n in ast.walk(fn):
+            if isinstance(n, ast.Name):
+                uses[n.id] = uses.get(n.id, 0) + 1
+
+        def first_eval_name(e):
+            # the value position evaluated first: leftmost positional argument chain
+            if isinstance(e, ast.Call) and isinstance(e.func, (ast.Name, ast.Attribute)) and not (isinstance(e.func, ast.Attribute) and not HoistArg()._simple(e.func.value)):
+                for a in e.args:
+                    if isinstance(a, ast.Name):
+                        return a
+                    if isinstance(a, ast.Constant):
+                        continue
+                    return None
+            return None
+
+        def rewrite(body):
+            out = []
+            i = 0
+            while i < len(body):
+                st = body[i]
+                for field in ("body", "orelse", "finalbody"):
+                    v = getattr(st, field, None)
+                    if isinstance(v, list) and v and isinstance(v[0], ast.stmt) and not isinstance(st, (ast.FunctionDef, ast.ClassDef)):
+                        setattr(st, field, rewrite(v))
+                nxt = body[i + 1] if i + 1 < len(body) else None
+                if (isinstance(st, ast.Assign) and len(st.targets) == 1 and isinstance(st.targets[0], ast.Name)
+                        and uses.get(st.targets[0].id) == 2 and isinstance(nxt, (ast.Assign, ast.Return)) and nxt.value is not None
+                        and not any(isinstance(n, (ast.Lambda, ast.Yield, ast.Await, ast.NamedExpr)) for n in ast.walk(st.value))):
+                    nm = first_eval_name(nxt.value)
+                    if nm is not None and nm.id == st.targets[0].id and nm is nxt.value.args[0]:
+                        nxt.value.args[0] = st.value
+                        i += 1
+                        continue
+                out.append(st)
+                i += 1
+            return out
+
+        fn.body = rewrite(fn.body)
+        return fn
+
+
 SIGS: dict[str, list[str] | None] = {}
 
 
@@ -206,7 +304,7 @@ class KeywordArgs(ast.NodeTransformer):
         return n
 
 
-TRANSFORMS = {"T8": FlipIf, "T9": KeywordArgs, "T7": AliasSelf, "T1": Rename, "T2": Commute, "T3": FlipCmp, "T4": Ident, "T5": LogLines, "T6": ReturnViaLocal}
+TRANSFORMS = {"T10": HoistArg, "T11": InlineTemp, "T8": FlipIf, "T9": KeywordArgs, "T7": AliasSelf, "T1": Rename, "T2": Commute, "T3": FlipCmp, "T4": Ident, "T5": LogLines, "T6": ReturnViaLocal}
 
 
 def overlay_for(tname, root):
